@@ -1,5 +1,5 @@
 """Verus unit: loops and arithmetic that need unbounded reasoning (no bound on lengths / offsets):
-connection.rs get_sub_iovs_offset, handler.rs vmm_va_to_gpa, bitmap.rs page arithmetic / AtomicBitmapMmap::{new, mark_dirty},
+handler.rs vmm_va_to_gpa, bitmap.rs page arithmetic / AtomicBitmapMmap::{new, mark_dirty},
 vhost_kern ioctl_result / io_result."""
 import re
 from vx import Unit, Source, ExtractError, sha
@@ -15,21 +15,7 @@ def build():
     conn, hnd, bmp, kern = Source(CONN), Source(HND), Source(BMP), Source(KERN)
     u.raw("use vstd::prelude::*;\nverus! {\nglobal size_of usize == 8;   // A-ARITH: 64-bit target\n")
     u.env("misc.rs")
-    # ---- C08: get_sub_iovs_offset
-    u.raw("""
-pub open spec fn sum_lens(s: Seq<usize>, n: int) -> int decreases n { if n <= 0 { 0 } else { sum_lens(s, n - 1) + s[n - 1] } }
-""")
-    u.extracted_fn(conn, "get_sub_iovs_offset",
-                   loops=[dict(kind="for", nth=0, iter="it", text="""        invariant_except_break
-            nr_skip == it.index@, sum_lens(iov_lens@, nr_skip as int) + size == skip_size, iov_lens@.len() <= usize::MAX,
-        ensures
-            nr_skip <= iov_lens@.len(), sum_lens(iov_lens@, nr_skip as int) + size == skip_size,
-            nr_skip < iov_lens@.len() ==> size < iov_lens@[nr_skip as int],""")],
-                   hints=[(r'for len in', "assert(iov_lens.len() <= usize::MAX);")],
-                   contract="""
-        ensures
-            r.0 <= iov_lens@.len(), sum_lens(iov_lens@, r.0 as int) + r.1 == skip_size, // [C08] the skipped iovecs plus the offset account for exactly the bytes already transferred
-            r.0 < iov_lens@.len() ==> r.1 < iov_lens@[r.0 as int], // [C08] ... and the offset lies inside the next iovec""")
+    # (C08: get_sub_iovs_offset moved to unit `chunk` together with the two loops that call it)
     # ---- C13 / C05: vmm_va_to_gpa
     span = hnd.impl_span(r'^impl<T: VhostUserBackend> VhostUserHandler<T>$')
     u.raw("impl VhostUserHandler {")
@@ -68,15 +54,24 @@ pub open spec fn sum_lens(s: Seq<usize>, n: int) -> int decreases n { if n <= 0 
             r is Ok ==> (exists|g: u64| is_translation(old(self).mappings@, descriptor, g)) && (exists|g: u64| is_translation(old(self).mappings@, available, g))
                 && (exists|g: u64| is_translation(old(self).mappings@, used, g)), // [C14,C13] accepted only if every address lies in a current region""")
     u.raw("}")
-    # ---- C13: ADD_MEM_REG / REM_MEM_REG (SET_MEM_TABLE's zip loop is outside the Verus dialect: not decided here)
+    # ---- C13: SET_MEM_TABLE / ADD_MEM_REG / REM_MEM_REG
     MEMRW = [("R6", r'Arc::new\(\s*GuestRegionMmap::new\(\s*region\.mmap_region\(file\)\?,\s*GuestAddress\(region\.guest_phys_addr\),\s*\)\s*\.ok_or\(VhostUserError::ReqHandlerError\(\s*io::ErrorKind::InvalidInput\.into\(\),?\s*\)\)\?,?\s*\)',
               'guest_region_new(region.mmap_region(file)?, GuestAddress(region.guest_phys_addr))?'),
              ("R6", r'\.map_err\(\|e\| VhostUserError::ReqHandlerError\(io::Error::other\(e\)\)\)', ''),
-             ("R8", r'self\.atomic_mem\.lock\(\)\.unwrap\(\)\.replace\(mem\)', 'self.atomic_mem.replace_with(mem)'),
+             ("R8", r'self\.atomic_mem\.lock\(\)\.unwrap\(\)\.replace\(([^;]+)\);', r'self.atomic_mem.replace_with(\1);'),
+             ("R8", r'\(\*previous\)\.clone\(\)', 'previous.clone_map()'),
+             ("R6", r'VhostUserError::ReqHandlerError\(io::Error::other\(e\)\)', 'e'),
              ("R8", r'self\.atomic_mem\.clone\(\)', 'self.atomic_mem.clone_handle()'),
              ("R6", r'self\.mappings\s*\.retain\(\|mapping\| mapping\.gpa_base != region\.guest_phys_addr\)', 'retain_not_gpa(&mut self.mappings, region.guest_phys_addr)')]
     MEMSIG = [("R3", r'&VhostUserSingleMemoryRegion', '&RegionMsg'), ("R10", r'file:\s*File', 'file: FileStub')]
     u.raw("impl MemHandler {")
+    # replace_memory: install + notify, previous memory put back when the backend refuses
+    if re.search(r'\bfn\s+replace_memory\b', hnd.src):   # (absent before the C13 repair: the three callers then carry the sequence inline)
+      u.extracted_fn(hnd, "replace_memory", sig_rw=[("R3", r'GuestMemoryMmap<T::Bitmap>', 'MemSnapshot')], body_rw=MEMRW, contract="""
+        ensures
+            final(self).mappings@ == old(self).mappings@,
+            r is Ok ==> final(self).atomic_mem.view@ == mem.regions && final(self).backend.updates@ == old(self).backend.updates@.push(mem.regions), // [C13] the new memory is installed and the backend told once
+            r is Err ==> final(self).atomic_mem.view@ == old(self).atomic_mem.view@, // [C13:mem-intact] a refused update leaves the previous guest memory in place""")
     u.extracted_fn(hnd, "add_mem_region", within=span2, sig_rw=MEMSIG, body_rw=MEMRW, contract="""
         requires mappings_ok(old(self).mappings@), region.memory_size > 0, region.user_addr + region.memory_size <= u64::MAX, region.guest_phys_addr + region.memory_size <= u64::MAX
         ensures
@@ -87,6 +82,42 @@ pub open spec fn sum_lens(s: Seq<usize>, n: int) -> int decreases n { if n <= 0 
             r is Err ==> final(self).mappings@ == old(self).mappings@, // [C13] a failed update leaves the translation table intact
             r is Err ==> final(self).atomic_mem.view@ == old(self).atomic_mem.view@, // [C13:mem-intact] ... and the guest memory
             (r is Ok && old(self).atomic_mem.view@.len() > 0 && all_logged(old(self).atomic_mem.view@)) ==> all_logged(final(self).atomic_mem.view@), // [C15:log-kept] logging stays in force for all guest memory across memory-table changes""")
+    u.extracted_fn(hnd, "set_mem_table", within=span2,
+                   sig_rw=[("R3", r'&\[VhostUserMemoryRegion\]', '&[RegionMsg]'), ("R10", r'files:\s*Vec<File>', 'files: Vec<FileStub>')],
+                   body_rw=[("R22", r'let mut regions = Vec::new\(\);', 'let mut regions: Vec<GuestRegionStub> = Vec::new();'),
+                            ("R24", r'for \(region, file\) in ctx\.iter\(\)\.zip\(files\) \{', 'for region in ctx.iter() { let file = match zip_next(&mut files) { Some(f) => f, None => break };'),
+                            ("R6", r'GuestRegionMmap::new\(\s*region\.mmap_region\(file\)\?,\s*GuestAddress\(region\.guest_phys_addr\),\s*\)\s*\.ok_or\(VhostUserError::ReqHandlerError\(\s*io::ErrorKind::InvalidInput\.into\(\),?\s*\)\)\?',
+                             'guest_region_new_plain(region.mmap_region(file)?, GuestAddress(region.guest_phys_addr))?'),
+                            ("R6", r'GuestMemoryMmap::from_regions\(regions\)\s*\.map_err\(\|e\| VhostUserError::ReqHandlerError\(io::Error::other\(e\)\)\)', 'mem_from_regions(regions)'),
+                            ] + MEMRW[1:],
+                   proof_prologue="\n        let ghost files0 = files@; let mut files = files;   // R24: the by-value parameter is rebound mutable for zip_next\n",
+                   loops=[dict(kind="for", nth=0, iter="it", text="""            invariant_except_break
+                it.index@ < files0.len() || files@.len() == 0,
+            invariant
+                ctx@.len() == files0.len(), *self == *old(self),
+                regions@.len() == it.index@, mappings@.len() == it.index@, it.index@ <= ctx@.len(),
+                files@ == files0.subrange(it.index@ as int, files0.len() as int),
+                descs(regions@) =~= table_view(ctx@, files0, it.index@ as int),
+                mappings@ =~= table_mappings(ctx@, it.index@ as int),
+            ensures
+                regions@.len() == ctx@.len(), mappings@.len() == ctx@.len(), *self == *old(self),
+                descs(regions@) =~= table_view(ctx@, files0, ctx@.len() as int),
+                mappings@ =~= table_mappings(ctx@, ctx@.len() as int),""")],
+                   hints=[(r'let guest_region = ', "assert(*region == ctx@[it.index@ as int]); assert(file == files0[it.index@ as int]);"),
+                          (r'regions\.push\(guest_region\);', """assert(regions@.last().d == table_view(ctx@, files0, it.index@ + 1)[it.index@ as int]);
+            assert forall|j: int| 0 <= j < it.index@ implies descs(regions@)[j] == table_view(ctx@, files0, it.index@ + 1)[j] by { assert(descs(regions@.drop_last())[j] == table_view(ctx@, files0, it.index@ as int)[j]); }
+            assert(descs(regions@) =~= table_view(ctx@, files0, it.index@ + 1));""", "after")],
+                   contract="""
+        requires ctx@.len() == files@.len(),   // proved-by: unit backend, set_mem_table arm (one descriptor per region, every region valid)
+            forall|j: int| 0 <= j < ctx@.len() ==> region_msg_ok(#[trigger] ctx@[j]),
+        ensures
+            r is Ok ==> final(self).atomic_mem.view@ == table_view(ctx@, files@, ctx@.len() as int)
+                && final(self).mappings@ == table_mappings(ctx@, ctx@.len() as int)
+                && final(self).backend.updates@ == old(self).backend.updates@.push(final(self).atomic_mem.view@), // [C13] the memory consists of exactly the regions of the message, region j backed by descriptor j at its mmap_offset; the table is replaced with it; backend notified once
+            r is Ok ==> mappings_ok(final(self).mappings@), // [C05,C13]
+            r is Err ==> final(self).mappings@ == old(self).mappings@, // [C13] a failed update leaves the translation table intact
+            r is Err ==> final(self).atomic_mem.view@ == old(self).atomic_mem.view@, // [C13:mem-intact] ... and the guest memory
+            (r is Ok && old(self).atomic_mem.view@.len() > 0 && all_logged(old(self).atomic_mem.view@)) ==> all_logged(final(self).atomic_mem.view@), // [C15:log-kept]""")
     u.extracted_fn(hnd, "remove_mem_region", within=span2, sig_rw=MEMSIG, body_rw=MEMRW, contract="""
         ensures
             r is Ok ==> (exists|i: int| 0 <= i < old(self).atomic_mem.view@.len() && old(self).atomic_mem.view@[i].gpa == region.guest_phys_addr
@@ -164,16 +195,6 @@ pub open spec fn sum_lens(s: Seq<usize>, n: int) -> int decreases n { if n <= 0 
         u.extracted_fn(kern, fn, sig_rw=[("R10", r'Result<T>', 'KResult<T>')],
                        body_rw=[("R10", r'IoError::last_os_error\(\)', 'last_os_error()'), ("R10", r'Error::%s' % ety, 'KError::%s' % ety)],
                        contract="        ensures (r is Ok) == (rc >= 0), r is Ok ==> r->Ok_0 == res // [C19] a negative return is an error, anything else returns what the kernel wrote")
-    # ---- C17: VhostUserHandler::new builds each worker's ring slice (thread spawn: outside Kani; iterator adapters: outside Verus).
-    # The Kani harness c17_registration_rank_bounded re-states this construction in its set-up; the anchor below ties that
-    # re-statement to the real text: if it changes, C17 is undecided (exit 2), never silently accepted.
-    span3 = hnd.impl_span(r'^impl<T> VhostUserHandler<T> where')
-    nb = re.sub(r'\s+', ' ', u.rw.strip_comments(hnd.fn_body("new", within=span3)))
-    u.scan(["C17"], "handler_new_ring_slices_anchor",
-           "for (index, vring) in vrings.iter().enumerate() { if (queues_mask >> index) & 1u64 == 1u64 { thread_vrings.push(vring.clone()); } }" in nb
-           and "VringEpollHandler::new(backend.clone(), thread_vrings, thread_id)" in nb
-           and "for (thread_id, queues_mask) in queues_per_thread.iter().enumerate()" in nb,
-           "VhostUserHandler::new builds worker t's ring slice as the rings whose bit is set in mask t, in increasing queue order (text anchor for the harness set-up)",
-           on_fail="undecided")
+    # (C17: VhostUserHandler::new is verified in unit `rank`; the former text anchor is gone)
     u.raw("fn main() {}\n} // verus!")
     return u
